@@ -85,8 +85,8 @@ theorem tyKey_head (t : Ty) : ∃ r, tyKey t = 1 :: 0x74 :: r := by
   cases t <;> simp [tyKey]
 
 theorem mk_head (x : Val) (h : cmp x = true) : ∃ r, mk x = kindHead (kind x) ++ r := by
-  cases x <;> simp [mk, mark, kb, kind, kindHead, undefKey, defaultKey, boolKey, intKey, floatKey, strMark] <;>
-    first | exact tyKey_head _ | (simp [cmp] at h)
+  cases x <;> simp [mk, mark, kb, kind, kindHead, undefKey, defaultKey, boolKey, intKey, floatKey, strMark]
+  exact tyKey_head _
 
 theorem veq_kind {x y : Val} (h : kind x ≠ kind y) : veq x y = false := by
   cases x <;> cases y <;> simp [kind] at h <;> simp [veq]
@@ -291,5 +291,240 @@ theorem mk_iff (hT : ∀ a b, TyWF a = true → TyWF b = true → tyKey a = tyKe
     simp only [mk, mark, kb, List.nil_append, veq]
     simp only [cmp] at cx cy
     exact ⟨hT t t' cx cy, tka t (by simp [typesIn]) t' (by simp [typesIn])⟩
+
+/-! ### the direction that needs no hypothesis about types: equal keys ⇒ equal values -/
+
+theorem map_mk_imp : ∀ {vs ws : List Val},
+    (∀ v ∈ vs, ∀ w ∈ ws, mk v = mk w → veq v w = true) →
+    vs.map mk = ws.map mk → vs.length = ws.length ∧ veqL vs ws = true
+  | [], [], _, _ => by simp [veqL]
+  | [], _ :: _, _, h => by simp at h
+  | _ :: _, [], _, h => by simp at h
+  | v :: vs, w :: ws, ih, h => by
+      simp only [List.map_cons, List.cons.injEq] at h
+      have r := map_mk_imp (fun v' hv w' hw => ih v' (List.mem_cons_of_mem _ hv) w' (List.mem_cons_of_mem _ hw)) h.2
+      simp only [List.length_cons, veqL, Bool.and_eq_true]
+      exact ⟨by omega, ih v List.mem_cons_self w List.mem_cons_self h.1, r.2⟩
+
+theorem mk_imp (hT : ∀ a b, TyWF a = true → TyWF b = true → tyKey a = tyKey b → tyEq a b = true) :
+    ∀ x y : Val, cmp x = true → cmp y = true → mk x = mk y → veq x y = true := by
+  have leaf : ∀ x y : Val, typesIn x = [] → cmp x = true → cmp y = true → mk x = mk y → veq x y = true := by
+    intro x y hx cx cy h
+    exact (mk_iff hT x y cx cy (fun a ha => by rw [hx] at ha; cases ha)).mp h
+  have seq : ∀ (x : Val) (vs : List Val), elems x = some vs →
+      (∀ v ∈ vs, ∀ y, cmp v = true → cmp y = true → mk v = mk y → veq v y = true) →
+      ∀ y, cmp x = true → cmp y = true → mk x = mk y → veq x y = true := by
+    intro x vs hx ih y cx cy h
+    have hk : kind x = kind y := Classical.byContradiction fun hk => mk_kind cx cy hk h
+    rw [kind_elems hx] at hk
+    have : ∃ ws, elems y = some ws := by cases y <;> simp [kind] at hk <;> simp [elems]
+    obtain ⟨ws, hy⟩ := this
+    rw [kb_elems hx, kb_elems hy, List.append_cancel_left_eq, kbL_eq, kbL_eq] at h
+    rw [veq_elems hx hy]
+    rw [cmp_elems hx] at cx
+    rw [cmp_elems hy] at cy
+    have := map_mk_imp (vs := vs) (ws := ws)
+      (fun v hv w hw => ih v hv w (cmpL_mem cx v hv) (cmpL_mem cy w hw)) (flat_frames_inj _ _ h)
+    simp [this.1, this.2]
+  apply Val.ind
+  · intro y; exact leaf _ y rfl
+  · intro y; exact leaf _ y rfl
+  · intro b y; exact leaf _ y rfl
+  · intro i y; exact leaf _ y rfl
+  · intro b y; exact leaf _ y rfl
+  · intro s y; exact leaf _ y rfl
+  · intro s y; exact leaf _ y rfl
+  · intro s y; exact leaf _ y rfl
+  · intro vs ih; exact seq (.array vs) vs rfl ih
+  · intro es ih y cx cy h
+    have hk : kind (.hash es) = kind y := Classical.byContradiction fun hk => mk_kind cx cy hk h
+    have : ∃ fs, y = .hash fs := by cases y <;> simp [kind] at hk; exact ⟨_, rfl⟩
+    obtain ⟨fs, rfl⟩ := this
+    obtain ⟨hc, hd⟩ := cmp_hash cx
+    obtain ⟨hc', hd'⟩ := cmp_hash cy
+    have frames : ∀ gs : List (Val × Val), ∀ a ∈ sortB (kbE gs), ∃ x, a = frame x := by
+      intro gs a ha
+      have := (sortB_perm _).subset ha
+      rw [kbE_eq] at this
+      obtain ⟨e, _, rfl⟩ := List.mem_map.mp this
+      exact ⟨_, rfl⟩
+    simp only [mk, mark, kb, List.nil_append, List.append_cancel_left_eq] at h
+    have hp : (kbE es).Perm (kbE fs) :=
+      (sortB_eq_iff _ _).mp (flat_inj_of_frames _ _ (frames es) (frames fs) h)
+    simp only [veq, Bool.and_eq_true, beq_iff_eq]
+    rw [veqE_iff hd]
+    have hl : es.length = fs.length := by
+      have := hp.length_eq
+      simpa [kbE_eq] using this
+    refine ⟨hl, fun e he => ?_⟩
+    have : frame (ekey e) ∈ kbE fs := hp.subset (by rw [kbE_eq]; exact List.mem_map.mpr ⟨e, he, rfl⟩)
+    rw [kbE_eq] at this
+    obtain ⟨e', he', h'⟩ := List.mem_map.mp this
+    have hm := ekey_inj (frame_inj h'.symm)
+    refine ⟨e', ?_, (ih e he).1 e'.1 (cmpE_mem hc e he).1 (cmpE_mem hc' e' he').1 hm.1,
+      (ih e he).2 e'.2 (cmpE_mem hc e he).2 (cmpE_mem hc' e' he').2 hm.2⟩
+    rw [kb_of_mk (cmpE_mem hc e he).1 (cmpE_mem hc' e' he').1 hm.1]
+    exact lookupLast_mem hd' he'
+  · intro k v ihk ihv
+    refine seq (.entry k v) [k, v] rfl ?_
+    intro w hw
+    simp only [List.mem_cons, List.not_mem_nil, or_false] at hw
+    rcases hw with e | e
+    · rw [e]; exact ihk
+    · rw [e]; exact ihv
+  · intro v _ y h; simp [cmp] at h
+  · intro t y cx cy h
+    have hk : kind (.typ t) = kind y := Classical.byContradiction fun hk => mk_kind cx cy hk h
+    have : ∃ t', y = .typ t' := by cases y <;> simp [kind] at hk; exact ⟨_, rfl⟩
+    obtain ⟨t', rfl⟩ := this
+    simp only [mk, mark, kb, List.nil_append] at h
+    simp only [cmp] at cx cy
+    simp only [veq]
+    exact hT t t' cx cy h
+
+/-! ### top level: `px.ToKey` -/
+
+theorem keyable_of_cmp : ∀ x : Val, cmp x = true → keyable x = true := by
+  have hl : ∀ vs : List Val, (∀ v ∈ vs, cmp v = true → keyable v = true) → cmpL vs = true → keyableL vs = true := by
+    intro vs
+    induction vs with
+    | nil => intros; rfl
+    | cons v vs ihl =>
+      intro ih h
+      simp only [cmpL, Bool.and_eq_true] at h
+      simp only [keyableL, Bool.and_eq_true]
+      exact ⟨ih v List.mem_cons_self h.1, ihl (fun w hw => ih w (List.mem_cons_of_mem _ hw)) h.2⟩
+  have he : ∀ es : List (Val × Val), (∀ e ∈ es, (cmp e.1 = true → keyable e.1 = true) ∧ (cmp e.2 = true → keyable e.2 = true)) →
+      cmpE es = true → keyableE es = true := by
+    intro es
+    induction es with
+    | nil => intros; rfl
+    | cons e es ihl =>
+      intro ih h
+      obtain ⟨k, v⟩ := e
+      simp only [cmpE, Bool.and_eq_true] at h
+      simp only [keyableE, Bool.and_eq_true]
+      exact ⟨⟨(ih (k, v) List.mem_cons_self).1 h.1.1, (ih (k, v) List.mem_cons_self).2 h.1.2⟩,
+        ihl (fun w hw => ih w (List.mem_cons_of_mem _ hw)) h.2⟩
+  apply Val.ind <;> try (intros; rfl)
+  · intro vs ih h; simp only [cmp] at h; simp only [keyable]; exact hl vs ih h
+  · intro es ih h; simp only [keyable]; exact he es ih (cmp_hash h).1
+  · intro k v ihk ihv h
+    simp only [cmp, Bool.and_eq_true] at h
+    simp [keyable, ihk h.1, ihv h.2]
+  · intro v _ h; simp [cmp] at h
+
+def isStr : Val → Bool
+  | .str _ => true
+  | _ => false
+
+/-- `TopSafe x y` excludes exactly the known finding C07-raw-string-key: one of the two is a string (keyed, at top level,
+    by its raw bytes) and the other is not a string but has exactly those bytes as its key -/
+def TopSafe (x y : Val) : Prop :=
+  (∀ s, x = .str s → isStr y = false → kb y ≠ s) ∧ (∀ s, y = .str s → isStr x = false → kb x ≠ s)
+
+theorem mk_of_not_str {x : Val} (h : isStr x = false) : mk x = kb x := by
+  cases x <;> simp [isStr] at h <;> simp [mk, mark]
+
+theorem veq_str_other {s : Bytes} {y : Val} (h : isStr y = false) : veq (.str s) y = false ∧ veq y (.str s) = false := by
+  cases y <;> simp [isStr] at h <;> simp [veq]
+
+theorem kb_iff (hT : ∀ a b, TyWF a = true → TyWF b = true → tyKey a = tyKey b → tyEq a b = true)
+    (x y : Val) (cx : cmp x = true) (cy : cmp y = true) (ts : TopSafe x y) (tka : TypeKeysAgree x y) :
+    kb x = kb y ↔ veq x y = true := by
+  cases hx : isStr x <;> cases hy : isStr y
+  · rw [← mk_of_not_str hx, ← mk_of_not_str hy]; exact mk_iff hT x y cx cy tka
+  · obtain ⟨s, rfl⟩ : ∃ s, y = .str s := by cases y <;> simp [isStr] at hy; exact ⟨_, rfl⟩
+    rw [(veq_str_other hx).2]
+    simp only [kb, Bool.false_eq_true, iff_false]
+    exact ts.2 s rfl hx
+  · obtain ⟨s, rfl⟩ : ∃ s, x = .str s := by cases x <;> simp [isStr] at hx; exact ⟨_, rfl⟩
+    rw [(veq_str_other hy).1]
+    simp only [kb, Bool.false_eq_true, iff_false]
+    exact fun h => ts.1 s rfl hy h.symm
+  · obtain ⟨s, rfl⟩ : ∃ s, x = .str s := by cases x <;> simp [isStr] at hx; exact ⟨_, rfl⟩
+    obtain ⟨s', rfl⟩ : ∃ s, y = .str s := by cases y <;> simp [isStr] at hy; exact ⟨_, rfl⟩
+    simp [kb, veq]
+
+theorem kb_imp (hT : ∀ a b, TyWF a = true → TyWF b = true → tyKey a = tyKey b → tyEq a b = true)
+    (x y : Val) (cx : cmp x = true) (cy : cmp y = true) (ts : TopSafe x y) (h : kb x = kb y) : veq x y = true := by
+  cases hx : isStr x <;> cases hy : isStr y
+  · rw [← mk_of_not_str hx, ← mk_of_not_str hy] at h; exact mk_imp hT x y cx cy h
+  · obtain ⟨s, rfl⟩ : ∃ s, y = .str s := by cases y <;> simp [isStr] at hy; exact ⟨_, rfl⟩
+    exact absurd h (ts.2 s rfl hx)
+  · obtain ⟨s, rfl⟩ : ∃ s, x = .str s := by cases x <;> simp [isStr] at hx; exact ⟨_, rfl⟩
+    exact absurd h.symm (ts.1 s rfl hy)
+  · obtain ⟨s, rfl⟩ : ∃ s, x = .str s := by cases x <;> simp [isStr] at hx; exact ⟨_, rfl⟩
+    obtain ⟨s', rfl⟩ : ∃ s, y = .str s := by cases y <;> simp [isStr] at hy; exact ⟨_, rfl⟩
+    simpa [kb, veq] using h
+
+theorem key_of_cmp {x : Val} (cx : cmp x = true) : key x = some (kb x) := by
+  simp [key, keyable_of_cmp x cx]
+
+/-! ### `Hash.Get` and `Unique` in terms of key bytes -/
+
+theorem hashGet_isSome (es : List (Val × Val)) (k : Val) :
+    (hashGet es k).isSome = true ↔ ∃ e ∈ es, kb e.1 = kb k := by
+  unfold hashGet
+  cases h : lookupLast (kb k) es with
+  | none =>
+    simp only [Option.map_none, Option.isSome_none, Bool.false_eq_true, false_iff, not_exists, not_and]
+    exact fun e he => lookupLast_none h e he
+  | some r =>
+    simp only [Option.map_some, Option.isSome_some, true_iff]
+    exact ⟨r, (lookupLast_some h).1, (lookupLast_some h).2⟩
+
+theorem hashGet_some {es : List (Val × Val)} {k v : Val} (h : hashGet es k = some v) :
+    ∃ e ∈ es, kb e.1 = kb k ∧ e.2 = v := by
+  unfold hashGet at h
+  cases h' : lookupLast (kb k) es with
+  | none => rw [h'] at h; cases h
+  | some r =>
+    rw [h'] at h
+    simp only [Option.map_some, Option.some.injEq] at h
+    exact ⟨r, (lookupLast_some h').1, (lookupLast_some h').2, h⟩
+
+theorem uniqueAux_sublist : ∀ (seen : List Bytes) (vs : List Val), (uniqueAux seen vs).Sublist vs
+  | _, [] => List.Sublist.slnil
+  | seen, v :: vs => by
+      simp only [uniqueAux]
+      split
+      · exact (uniqueAux_sublist seen vs).cons _
+      · exact (uniqueAux_sublist _ vs).cons_cons _
+
+theorem uniqueAux_cover : ∀ (seen : List Bytes) (vs : List Val), ∀ v ∈ vs,
+    kb v ∈ seen ∨ ∃ u ∈ uniqueAux seen vs, kb u = kb v
+  | _, [], _, h => by simp at h
+  | seen, w :: ws, v, hv => by
+      simp only [uniqueAux]
+      rcases List.mem_cons.mp hv with e | hv
+      · subst e
+        split
+        · rename_i h; left; simpa using h
+        · right; exact ⟨v, List.mem_cons_self, rfl⟩
+      · split
+        · exact uniqueAux_cover seen ws v hv
+        · rcases uniqueAux_cover (kb w :: seen) ws v hv with h | ⟨u, hu, h⟩
+          · rcases List.mem_cons.mp h with e | h
+            · right; exact ⟨w, List.mem_cons_self, e.symm⟩
+            · left; exact h
+          · right; exact ⟨u, List.mem_cons_of_mem _ hu, h⟩
+
+theorem uniqueAux_distinct : ∀ (seen : List Bytes) (vs : List Val),
+    (uniqueAux seen vs).Pairwise (fun a b => kb a ≠ kb b) ∧ ∀ u ∈ uniqueAux seen vs, kb u ∉ seen
+  | _, [] => by simp [uniqueAux]
+  | seen, w :: ws => by
+      simp only [uniqueAux]
+      split
+      · exact uniqueAux_distinct seen ws
+      · rename_i h
+        have ih := uniqueAux_distinct (kb w :: seen) ws
+        refine ⟨List.Pairwise.cons ?_ ih.1, ?_⟩
+        · intro u hu e
+          exact ih.2 u hu (by rw [← e]; exact List.mem_cons_self)
+        · intro u hu
+          rcases List.mem_cons.mp hu with e | hu
+          · rw [e]; simpa using h
+          · exact fun hm => ih.2 u hu (List.mem_cons_of_mem _ hm)
 
 end Pcore.ValueEq
